@@ -56,7 +56,7 @@ class C14(PropBase):
             "LegendHeaders (stdout of the harness) against the model's rendering and against an independent rendering of the "
             "dumped row state, cell by cell at the header's column offsets; widths of header, separator and rows; the table the reader thread itself prints "
             "(display on) for -i given once and several times. Non-trivial = "
-            "a printed row with at least 6 filled columns; distinct by (group set, row text).")
+            "a printed row with at least 6 filled columns; distinct by (group set, row text). Also through the built binary: no -i, empty -i, several -i, long option name - the groups in the header it prints.")
     assumptions = ["std::fmt of floats is not modelled: float cells compared numerically to the last printed digit"]
 
     def explore(self, rep, run, rng, tier, driver_ok):
